@@ -406,7 +406,13 @@ func (s *SimStore) CommitTransaction(ctx context.Context, tx *ledger.Transaction
 		case refConflict:
 			return fmt.Errorf("failed to insert transaction: %w", ledgerstore.NewErrTransactionReferenceConflict(tx.Reference))
 		case idConflict:
-			return fmt.Errorf("failed to insert transaction: %w", ledgerstore.NewErrConcurrentTransaction(*tx.ID))
+			var dup uint64
+			if tx.ID != nil {
+				dup = *tx.ID
+			} else {
+				dup = seqID
+			}
+			return fmt.Errorf("failed to insert transaction: %w", ledgerstore.NewErrConcurrentTransaction(dup))
 		}
 		return fmt.Errorf("failed to insert transaction: %w", err)
 	}
